@@ -191,7 +191,9 @@ _ADD = {
          ' R11: a forward dataflow assigns every integer local the kind of index it holds (row, column, pivot position, supernode, place in lsub/lusup/usub) '
          'from the documented domain/range of each array and from loop bounds, and reports subscripts, stored values and array arguments of a definitely wrong '
          'kind (perm_c where iperm_c is expected, a loop over the column count sweeping perm_r). The factor-kernel rules of C01 run here as well.'),
- 'C03': ('; index-kind dataflow R11', ' R11 index kinds (see C02): e.g. the completion of perm_r must sweep all m rows.'),
+ 'C03': ('; index-kind dataflow R11; drop-row alignment', ' R11 index kinds (see C02): e.g. the completion of perm_r must sweep all m rows. ilu_?drop_row moves the values and the subscript of a row between the same two slots.'),
+ 'C05': ('; factor-kernel rules', ' The factor-kernel rules of C01 (segment-size guard agreement, tempv layout, leading-dimension discipline) run here as well: the solve is only as good as the factors.'),
+ 'C20': ('; factor-kernel rules', ' The factor-kernel rules of C01 run here as well (the bridge factors with the default tuning, where the 2-D panel update is active).'),
  'C06': ('; GlobalLU_t mirror rule; workspace-stack invariant R6',
          ' Locals named after GlobalLU_t fields are loaded from / stored to the field of the same name (603 sites), and the stack bookkeeping of the caller '
          'workspace is preserved by ?LUWorkFree (R6), so that a re-factorization starts from consistent capacities and a consistent stack.'),
